@@ -275,3 +275,76 @@ Proof.
       * unfold gap. destruct (is_nil a), (is_nil b); repeat constructor; intros [].
       * subst b. apply Forall_forall. intros t Ht. apply Fc. eapply in_skipn_l. exact Ht.
 Qed.
+
+(* ---------------------------------------------------------------- netip's text of a 16-byte address *)
+
+Definition hexchar (c : byte) : Prop := (48 <= c <= 57) \/ (97 <= c <= 102).
+
+Lemma hexnl_chars w : w < 65536 -> Forall hexchar (hexnl w).
+Proof.
+  intros H. unfold hexnl, hex4, hexchar.
+  destruct (N.ltb_spec w 16); [repeat (apply Forall_cons; [apply hexd_range; lia|]); apply Forall_nil|].
+  destruct (N.ltb_spec w 256); [repeat (apply Forall_cons; [apply hexd_range; lia|]); apply Forall_nil|].
+  destruct (N.ltb_spec w 4096); repeat (apply Forall_cons; [apply hexd_range; lia|]); apply Forall_nil.
+Qed.
+
+Lemma in_join {A} (sep : list A) ts x : In x (join sep ts) -> In x sep \/ exists t, In t ts /\ In x t.
+Proof.
+  induction ts as [|a r IH]; intros H; [destruct H|].
+  destruct r as [|b r'].
+  - right. exists a. split; [left; reflexivity|exact H].
+  - change (join sep (a :: b :: r')) with (a ++ sep ++ join sep (b :: r')) in H.
+    apply in_app_or in H. destruct H as [H|H]; [right; exists a; split; [left; reflexivity|exact H]|].
+    apply in_app_or in H. destruct H as [H|H]; [left; exact H|].
+    destruct (IH H) as [S|(t & Ht & Hx)]; [left; exact S|right; exists t; split; [right; exact Ht|exact Hx]].
+Qed.
+
+Lemma ip6_plain_nodot g : Forall (fun w => w < 65536) g -> ~ In DOT (ip6_plain g).
+Proof.
+  intros R I. unfold ip6_plain, render in I.
+  assert (NT : forall ts', (forall t, In t ts' -> In t (map hexnl g)) -> ~ In DOT (join [COLON] ts')).
+  { intros ts' Sub J. apply in_join in J. destruct J as [J|(t & Ht & Hx)].
+    - unfold DOT, COLON in J. destruct J as [J|[]]. lia.
+    - apply Sub in Ht. apply in_map_iff in Ht. destruct Ht as (w & <- & Hw).
+      rewrite Forall_forall in R. pose proof (hexnl_chars w (R w Hw)) as C. rewrite Forall_forall in C.
+      specialize (C DOT Hx). unfold hexchar, DOT in C. lia. }
+  destruct (best_run (map (N.eqb 0) g) 0 (0%nat, 0%nat)) as [s n]. destruct (Nat.ltb n 2).
+  - apply (NT (map hexnl g)); auto.
+  - apply in_app_or in I. destruct I as [I|I]; [apply (NT _ (fun t => in_firstn_l s _ t) I)|].
+    apply in_app_or in I. destruct I as [I|I].
+    + unfold DOT, COLON in I. destruct I as [I|[I|[]]]; lia.
+    + apply (NT _ (fun t => in_skipn_l (s + n) _ t) I).
+Qed.
+
+Lemma groups_len b : List.length b = 16%nat -> List.length (groups b) = 8%nat.
+Proof. intros H. do 16 (destruct b as [|? b]; [discriminate|]). destruct b; [reflexivity|discriminate]. Qed.
+
+Lemma groups_ok b : List.length b = 16%nat -> bytes_ok b -> Forall (fun w => w < 65536) (groups b).
+Proof.
+  intros H B. do 16 (destruct b as [|? b]; [discriminate|]). destruct b; [|discriminate].
+  unfold bytes_ok in B. repeat match goal with H : Forall _ (_ :: _) |- _ => inversion H; clear H; subst end.
+  cbn [groups]. repeat constructor; lia.
+Qed.
+
+Theorem ip6_text_parse b :
+  List.length b = 16%nat -> bytes_ok b -> parse_ip6_text (ip6_text b) = groups b.
+Proof.
+  intros H B. unfold ip6_text. destruct (is4in6 b) eqn:E4.
+  - do 16 (destruct b as [|? b]; [discriminate|]). destruct b; [|discriminate].
+    unfold is4in6 in E4. cbn [List.length Nat.eqb firstn forallb nth andb] in E4.
+    repeat match goal with H : _ && _ = true |- _ => apply andb_prop in H; destruct H end.
+    repeat match goal with H : (0 =? _) = true |- _ => apply N.eqb_eq in H; subst end.
+    repeat match goal with H : (_ =? 255) = true |- _ => apply N.eqb_eq in H; subst end.
+    cbn [skipn]. unfold parse_ip6_text.
+    match goal with |- context [ip4_text [?a; ?b; ?c; ?d]] =>
+      assert (D : existsb (N.eqb DOT) ([COLON; COLON; 102; 102; 102; 102; COLON] ++ ip4_text [a; b; c; d]) = true) end.
+    { apply existsb_exists. exists DOT. split; [|apply N.eqb_refl]. apply in_or_app. right.
+      unfold ip4_text. cbn [map join]. apply in_or_app. right. left. reflexivity. }
+    rewrite D. cbn [app]. unfold COLON.
+    rewrite ip4_text_parse by discriminate. reflexivity.
+  - unfold parse_ip6_text.
+    assert (D : existsb (N.eqb DOT) (ip6_plain (groups b)) = false).
+    { apply Bool.not_true_is_false. intros X. apply existsb_exists in X. destruct X as (x & Hx & Ex).
+      apply N.eqb_eq in Ex. subst x. exact (ip6_plain_nodot _ (groups_ok b H B) Hx). }
+    rewrite D. apply ip6_plain_parse; [apply groups_len; exact H|apply groups_ok; assumption].
+Qed.
